@@ -84,8 +84,8 @@ Steps:
    write a small LD_PRELOAD C shim (gcc is available) under {root}/{p}/demo/ plus an example program under
    {root}/{p}/examples/seeded_demo.rs and a script {root}/{p}/demo/run.sh that exits non-zero with the
    change and zero without it.
-   Verify BOTH states: with the change applied; then `git stash push -- src`, run again (must pass), then
-   `git stash pop`.
+   Verify BOTH states: with the change applied; then `git diff -- src > my.diff && git checkout -- src`, run
+   again (must pass), then `git apply my.diff`. Do NOT use `git stash`: the stash is shared by all worktrees.
 5. Leave the worktree with your change applied (uncommitted) and save the patch:
    `cd {root}/{p} && git diff -- src > {root}/{p}/seeded_patch.diff`.
    Use a scratch CARGO_TARGET_DIR inside {root}/{p} only; keep the worktree's build output small.
